@@ -25,6 +25,8 @@ pub enum SimStop {
     Spin,
     /// The simulated terminal has no more keys (the user walked away).
     KeysExhausted,
+    /// More command lines were read than the finite script holds.
+    CommandFlood,
 }
 
 /// Which command stream `Stream::new` builds while armed.
@@ -229,7 +231,7 @@ pub fn on_command(command: &dyn std::fmt::Debug) {
     });
     if flood == Some(true) {
         // More commands than the script holds: the reader is handing out lines forever
-        unwind(SimStop::Spin);
+        unwind(SimStop::CommandFlood);
     }
 }
 
@@ -244,7 +246,7 @@ pub fn on_command_error(error: &dyn std::fmt::Display) {
         false
     });
     if flood == Some(true) {
-        unwind(SimStop::Spin);
+        unwind(SimStop::CommandFlood);
     }
 }
 
